@@ -425,7 +425,23 @@ func c09Run(w *W) {
 		ss := syms(append(append([]string{}, texts...), "\n")...)
 		c09Sentence(w, ss)
 		// the multi-line layout as a base of its own: comments, blanks and extra newlines at every inner newline
-		if !w.thorough() && (name == "DH" || name == "D1" && len(texts) > 12) {
+		// … and the layout with a newline after every | && || (a linebreak the lexer consumes itself): comments before it
+		if m := gramParse(ss); m.ok && (name == "D0" || name == "DH" && len(texts) <= 10) {
+			nl := symTable["\n"]
+			var lb []sym
+			changed := false
+			for i, sy := range ss {
+				lb = append(lb, sy)
+				if sy.kind == kOp && (sy.op == "|" || sy.op == "&&" || sy.op == "||") && m.linebreakAt[i+1] && ss[i+1].kind != kNL {
+					lb = append(lb, nl)
+					changed = true
+				}
+			}
+			if changed {
+				c09Sentence(w, lb)
+			}
+		}
+		if !w.thorough() && (name == "DH" || name == "D1") && len(texts) > 12 {
 			return // quick tier: the long sentences in their one-line layout only
 		}
 		if m := gramParse(ss); m.ok {
